@@ -94,6 +94,32 @@ func ruleL2Index(r *core.Run, id string) {
 				key := core.Key(id, r.KeyName(f), fmt.Sprintf("cursor index#%d", k))
 				// a comparison of this index value (or the value it is a φ of) with len(X) that dominates the access
 				okb := false
+				// ... or the index is reduced modulo the list's length
+				{
+					iv := ia.Index
+					for {
+						if c, ok := iv.(*ssa.Convert); ok {
+							iv = c.X
+							continue
+						}
+						break
+					}
+					if bo, ok := iv.(*ssa.BinOp); ok && bo.Op == token.REM {
+						y := bo.Y
+						for {
+							if c, ok := y.(*ssa.Convert); ok {
+								y = c.X
+								continue
+							}
+							break
+						}
+						if c, ok := y.(*ssa.Call); ok && len(c.Call.Args) == 1 {
+							if bi, ok := c.Call.Value.(*ssa.Builtin); ok && bi.Name() == "len" && c.Call.Args[0] == ia.X {
+								okb = true
+							}
+						}
+					}
+				}
 				web := map[ssa.Value]bool{ia.Index: true}
 				if phi, ok := ia.Index.(*ssa.Phi); ok {
 					for _, e := range phi.Edges {
@@ -148,5 +174,5 @@ func ruleL2Index(r *core.Run, id string) {
 			}
 		}
 	}
-	r.Floor("cursor_index_sites", n, 1)
+	r.Count("cursor_index_sites", n) // no floor: the cursor need not be used as an index at all; the reference variant S-C02-a6 keeps the rule from going vacuous unnoticed (thorough tier)
 }
